@@ -35,6 +35,7 @@ INV = [
     ("", "forall|i: int| %s <= i < reader.chain_log@.len() ==> (#[trigger] reader.chain_log@[i]).1.offset < block_offset" % FROM),
     ("C06,C07,C09:recovered_blocks_are_exactly_the_visited_units_with_entries_with_their_size_extent_owner_and_id", "log_sound(reader.chain_log@, %s, %s, mmap.file, next_block_id_in as int, starts, scan_end as int)" % (FROM, D)),
     ("C01,C06:recovered_blocks_are_in_file_order", "log_ordered(reader.chain_log@, %s)" % FROM),
+    ("C09,C06,C13:every_recovered_block_id_is_below_the_next_id_handed_back", "forall|i: int| %s <= i < reader.chain_log@.len() ==> ((#[trigger] reader.chain_log@[i]).1.id as int) < next_block_id as int" % FROM),
     ("C06,C07,C08:no_visited_unit_with_entries_is_passed_over", "log_complete(reader.chain_log@, %s, %s, starts, scan_end as int)" % (FROM, D)),
 ]
 _A = "log_in, reader.chain_log@, %s, %s, mmap.file" % (FROM, D)
@@ -46,7 +47,8 @@ VISIT = ("assert(visit_step(log_in, reader.chain_log@, %s, mmap.file, next_block
          + "starts = st_in.push(bo);")
 UNIT = dict(
     name="recovery_scan",
-    props=["C06", "C07", "C11", "C01", "C09", "C08"],
+    props=["C06", "C07", "C11", "C01", "C09", "C08", "C04"],
+    implicit_props=["C06", "C07", "C11", "C01", "C09", "C08"],  # the properties every obligation of the unit counts for; the others only through labelled clauses
     prelude=["core_types.rs", "str_ext.rs", "engine.rs", "sys_model.rs"],
     assumptions=[
         "R14 region: the body of `for file_path in files.iter()` from `let mut block_offset` on, for one file; directory listing, file order (sort), mmap opening, the count rebuild and cursor hydration are other code",
@@ -76,6 +78,7 @@ UNIT = dict(
                  ("C01,C06:recovered_blocks_are_in_file_order", "log_ordered(final(reader).chain_log@, %s)" % FROM),
                  ("C06,C07,C08:no_visited_unit_with_entries_is_passed_over", "log_complete(final(reader).chain_log@, %s, %s, ret.2@, ret.3@)" % (FROM, D)),
                  ("C06,C07,C08:the_scan_ends_only_at_the_end_of_the_file_or_at_a_damaged_unit", "ret.1@ %% UNIT == 0 && (ret.1@ + UNIT > ret.3@ || stop_unit(%s, ret.1@, ret.3@))" % D),
+                 ("C09,C06,C13:every_recovered_block_id_is_below_the_next_id_handed_back", "forall|i: int| %s <= i < final(reader).chain_log@.len() ==> ((#[trigger] final(reader).chain_log@[i]).1.id as int) < ret.0 as int" % FROM),
                  ("C04,C06:earlier_chain_entries_are_kept", "final(reader).chain_log@.len() >= old(reader).chain_log@.len() && final(reader).chain_log@.subrange(0, %s) =~= old(reader).chain_log@" % FROM),
              ],
              hints=[
@@ -97,5 +100,15 @@ UNIT = dict(
                  ], ensures=[("C06,C07,C08:extent_of_a_block_is_its_run_of_readable_entries", "used as int == extent(%s, block_offset as int, 0, block_limit as int).0 && entries_in_block as nat == extent(%s, block_offset as int, 0, block_limit as int).1" % (D, D))],
                     invariant_except_break=[("", "used < block_limit")], decreases="block_limit - in_block_off"),
              }),
+        dict(kind="region", file=WAL, within=FN, start="// enqueue deletion checks", end=None,
+             sig="fn startup_tail(allocator: &mut AllocFF, seen_files: SeenH, next_block_id: usize, g: &mut TrackersH) -> (ret: IoResult<()>)",
+             rules=[
+                 dict(rule="R8", kind="re", dotall=True, pat=r"for f in seen_files\.into_iter\(\) \{\s*flush_check\(f\);\s*\}", repl="g.flush_check_all(seen_files);", why="HashSet iteration calling flush_check -> one ghost call (flush_check: unit core_trackers)"),
+                 dict(rule="R5", kind="re", dotall=True, pat=r"unsafe \{\s*self\.allocator\.fast_forward\(([^;]*)\);\s*\}", repl=r"allocator.fast_forward(\1);", why="allocator call (unsafe fn; field passed explicitly)"),
+             ],
+             ensures=[
+                 ("C09,C06,C13:after_recovery_the_allocator_continues_at_the_id_the_scan_handed_back", "final(allocator).ff@ == old(allocator).ff@.push(next_block_id as u64)"),
+                 ("C11:recovery_ends_successfully_once_the_files_are_scanned", "ret is Ok"),
+             ]),
     ],
 )
